@@ -104,6 +104,21 @@ def icptId (cfg : Cfg M K R) (id : String) : String :=
   | none => id
   | some f => f id
 
+/-- `idAbsent` of `Collection.Update` (fix 929e9c0): whether the caller provided an id is decided on the id
+AS GIVEN, before the id interceptor runs (an interceptor may turn the empty id into a key of its own: a
+prefix, a suffix); an id the interceptor maps to the empty key counts as absent too (`id == ""` after
+interception, as before the fix). -/
+def idAbsent (cfg : Cfg M K R) (id : String) : Bool :=
+  id = "" || icptId cfg id = ""
+
+/-- The id the `get` callback of `Collection.Update` starts from.  The code keeps the intercepted id next
+to the flag `idAbsent` and tests `(idAbsent || id == "") && genEmptyID`; when the caller's id is empty and
+ids are generated, the intercepted id is dead (it is overwritten by the generated id before any lookup),
+so the flag is folded into the starting id: the context then starts from the empty id, and `updGet`'s test
+`c.id = "" && wr.genEmptyID` is the code's test (`updKey_gen` / `updKey_nogen` in `Lemmas.lean`). -/
+def updKey (cfg : Cfg M K R) (wr : WriteReq M K) (id : String) : String :=
+  if id = "" && wr.genEmptyID then "" else icptId cfg id
+
 /-- `WriteRequest.changeFn(writer, value)` applied to `(old, dst)`. -/
 def changeFn (ops : MsgOps M K) (wr : WriteReq M K) (u : Upd K) (value : M)
     (old dst : Option M) : Except Code M :=
@@ -330,7 +345,7 @@ def updSave (cfg : Cfg M K R) (wr : WriteReq M K) (c : UpdCtx M R) (m : M) : Upd
 /-- `Collection.Update(id, msg, opts...)` -/
 def Coll.update (cfg : Cfg M K R) (s : CState M R) (id : String) (msg : M) (wr : WriteReq M K) :
     COut M × CState M R :=
-  let id := icptId cfg id
+  let id := updKey cfg wr id
   let u := fieldUpdater cfg wr
   match cfg.ops.validate u msg with
   | some c => ({ val := none, err := some c, events := [], idCalls := [], createdCalls := 0 }, s)
